@@ -116,3 +116,12 @@ claim(
     "terminal clauses [V].",
     trusted=["'at any distance' rests on the BTreeMap keyed by TypeId (std)", "the compile-time rejections (type-state) are rustc's obligation, no runtime contract exists"],
 )
+
+claim(
+    "C12",
+    "Contracts [K-full per instantiation, real output/owning.rs and composites]: into_return_once(v) yields Some(v) then None forever; "
+    "into_return(v) yields Some(v) on every request; the builder paths once() / unquantified returns() store the single-use form, "
+    "n_times / at_least_times / each_call().returns() the repeatable form; composites (Option, Result, tuple, Vec, Poll) are None "
+    "after delivery exactly when they contain a consumed owned leaf; a drop-counting leaf shows delivered <= 1.",
+    trusted=["racing threads are outside (Kani has no threads; std Mutex trusted)", "the compile-time half (Clone demanded by the type state) is rustc's obligation"],
+)
